@@ -426,7 +426,78 @@ fn make_writer<W>(w: W, indent: Option<(u8, u8)>) -> Writer<W> {
     }
 }
 
-fn emit_sync(builds: &[Build], w: &mut Writer<Vec<u8>>) -> io::Result<()> {
+/// A synchronous sink that behaves like a socket: every `write` accepts only the next
+/// `accept` bytes of the Plan's pattern, `write_vectored` is implemented natively (one
+/// budget spread over the slices in order), and a write is now and then interrupted.
+struct ShortSink {
+    data: Vec<u8>,
+    accept: Vec<u8>,
+    eintr: Vec<u8>,
+    i: usize,
+    pending_eintr: Option<u8>,
+    pub short_writes: u64,
+    pub vectored_calls: u64,
+    pub eintrs: u64,
+}
+
+impl ShortSink {
+    fn new(p: &PipePlan) -> ShortSink {
+        ShortSink { data: vec![], accept: p.accept.clone(), eintr: p.wpend.clone(), i: 0, pending_eintr: None, short_writes: 0, vectored_calls: 0, eintrs: 0 }
+    }
+    /// budget of this call, or an interrupt first
+    fn budget(&mut self) -> io::Result<usize> {
+        let k = self.i;
+        let left = match self.pending_eintr {
+            Some(n) => n,
+            None => {
+                if self.eintr.is_empty() {
+                    0
+                } else {
+                    self.eintr[k % self.eintr.len()].min(2)
+                }
+            }
+        };
+        if left > 0 {
+            self.pending_eintr = Some(left - 1);
+            self.eintrs += 1;
+            return Err(io::Error::new(io::ErrorKind::Interrupted, "qxsim-eintr"));
+        }
+        self.pending_eintr = None;
+        self.i += 1;
+        Ok(if self.accept.is_empty() { usize::MAX } else { (self.accept[k % self.accept.len()] as usize).max(1) })
+    }
+}
+
+impl io::Write for ShortSink {
+    fn write(&mut self, buf: &[u8]) -> io::Result<usize> {
+        let n = self.budget()?.min(buf.len());
+        if n < buf.len() {
+            self.short_writes += 1;
+        }
+        self.data.extend_from_slice(&buf[..n]);
+        Ok(n)
+    }
+    fn write_vectored(&mut self, bufs: &[io::IoSlice<'_>]) -> io::Result<usize> {
+        self.vectored_calls += 1;
+        let mut left = self.budget()?;
+        let mut n = 0;
+        for b in bufs {
+            let k = left.min(b.len());
+            self.data.extend_from_slice(&b[..k]);
+            n += k;
+            left -= k;
+            if left == 0 {
+                break;
+            }
+        }
+        Ok(n)
+    }
+    fn flush(&mut self) -> io::Result<()> {
+        Ok(())
+    }
+}
+
+fn emit_sync<W: io::Write>(builds: &[Build], w: &mut Writer<W>) -> io::Result<()> {
     for b in builds {
         match b {
             Build::Elem { empty, name, edits } => {
@@ -823,6 +894,34 @@ impl Scenario for Pipe {
             }
         };
         st.executions += 1;
+        // --- the synchronous writer over a sink that takes a few bytes per call ---
+        match guard(|| {
+            let mut w = make_writer(ShortSink::new(&plan.pipe), plan.pipe.indent);
+            emit_sync(builds, &mut w).map(|_| w.into_inner())
+        }) {
+            Ok(Ok(sink)) => {
+                st.executions += 1;
+                st.add("fault.sync_short_write", sink.short_writes);
+                st.add("fault.sync_write_eintr", sink.eintrs);
+                st.add("sync_sink.write_vectored_calls", sink.vectored_calls);
+                if sink.data != ref_bytes {
+                    out.push(Violation::new(
+                        "C09",
+                        "sync-bytes-differ-under-short-writes",
+                        format!("sync writer into a Vec wrote {:?}; into a sink that accepts a few bytes per write / write_vectored call it wrote {:?}", crate::core::lossy(&ref_bytes), crate::core::lossy(&sink.data)),
+                    ));
+                    return out;
+                }
+            }
+            Ok(Err(e)) => {
+                out.push(Violation::new("C09", "sync-writer-failed", format!("writing to a sink that accepts a few bytes per call failed: {:?}", e)));
+                return out;
+            }
+            Err(p) => {
+                push_panic(&p, plan, "sync writer over a short-writing sink", &mut out);
+                return out;
+            }
+        }
         let bom_first = matches!(builds.first(), Some(Build::Bom));
         // (a pipe that cannot hold the whole byte-order mark could never deliver it in one piece)
         let cap = if bom_first { plan.pipe.capacity.max(4) } else { plan.pipe.capacity.max(1) } as usize;
